@@ -90,7 +90,7 @@ theorem prepare_inv {o : Oracle W} {Q : W → W → Prop} (hq : OracleInv o Q) (
   | unsupported => exact hq.refl w
   | expErr => exact hq.refl w
   | nulPath => exact hq.refl w
-  | fileCs op path =>
+  | fileCs op path st =>
     simp only
     have h1 : Q w (pipeAvailable o w t).1 := hq.deny w
     by_cases hc : (pipeAvailable o w t).2 = true
